@@ -291,6 +291,63 @@ where
           · have := ih _ _ _ h; omega
       · rw [hr] at h; injection h with h _; cases h
 
+theorem runReads_ok_vals (le : Bool) (d : Slice) (g : Option Guard) (ts : List Ty) (i : Nat)
+    (acc : List Int) (off : Nat) (vals : List Int) (off' : Nat)
+    (h : runReads le d g ts i acc off = (.ok vals, off')) :
+    vals = acc ++ valsAt le d ts off := by
+  induction ts generalizing i acc off with
+  | nil => simp [runReads, pure, ParseM.pure'] at h; simp [valsAt, h.1]
+  | cons t ts ih =>
+    unfold runReads at h
+    rcases readTy_trichotomy le t d off with ⟨_, _, hr⟩ | ⟨e, hr, _⟩
+    · rw [hr] at h
+      cases g with
+      | none =>
+        simp only at h
+        have := ih _ _ _ h
+        rw [this]; simp [valsAt]
+      | some gd =>
+        simp only at h
+        split at h
+        · injection h with h _; cases h
+        · have := ih _ _ _ h
+          rw [this]; simp [valsAt]
+    · rw [hr] at h; injection h with h _; cases h
+
+/-- Shape of a successful parse: the entry fits, the cursor advances by its size, and the
+    record is built from the field expressions over the values at successive offsets. -/
+theorem EntryParser.parse_ok_shape {α} (ep : EntryParser α) (le : Bool) (c : Class)
+    (hne : (ep.prog c).reads ≠ []) (d : Slice) (off : Nat) (a : α) (off' : Nat)
+    (h : ep.parse le c d off = (.ok a, off')) :
+    off + (ep.prog c).size ≤ d.len ∧ off' = off + (ep.prog c).size ∧
+    ep.build ((ep.prog c).fields.map (Expr.eval (valsAt le d (ep.prog c).reads off))) = some a := by
+  have h1 : (ep.parse le c d off).1 = .ok a := by rw [h]
+  have hc := EntryParser.parse_ok_cursor ep le c hne d off a h1
+  rw [h] at hc
+  refine ⟨hc.2, hc.1, ?_⟩
+  unfold EntryParser.parse at h
+  generalize hr : interp (ep.prog c) le d off = r at h
+  obtain ⟨r1, r2⟩ := r
+  cases r1 with
+  | panic => simp at h
+  | err e => simp at h
+  | ok vs =>
+    unfold interp at hr
+    generalize hq : runReads le d (ep.prog c).guard (ep.prog c).reads 0 [] off = q at hr
+    obtain ⟨q1, q2⟩ := q
+    cases q1 with
+    | ok vals =>
+      have hv := runReads_ok_vals le d _ _ 0 [] off vals q2 hq
+      simp at hr hv
+      obtain ⟨hr1, _⟩ := hr
+      subst hv
+      rw [hr1]
+      cases hb : ep.build vs with
+      | none => simp [hb] at h
+      | some a' => simp [hb] at h; rw [h.1]
+    | err e => simp at hr
+    | panic => simp at hr
+
 theorem len_succ {β} (vs : List β) (n : Nat) (h : vs.length = n + 1) :
     ∃ a t, vs = a :: t ∧ t.length = n := by
   cases vs with
